@@ -138,6 +138,31 @@ func main() {
 				return s == "dp.Search" || s == "json.Marshal" || s == "zstd.CompressLevel" || s == "mustWriteFileAtomic"
 			}), "processFrac: search, encode, compress, atomic write")
 		}
+		// every place where the query text is parsed, with the mapping argument; and what a reload does to the AST
+		{
+			var parses, astAssign []string
+			for _, d := range f.AST.Decls {
+				fd, ok := d.(*ast.FuncDecl)
+				if !ok || fd.Body == nil {
+					continue
+				}
+				ast.Inspect(fd.Body, func(n ast.Node) bool {
+					switch x := n.(type) {
+					case *ast.CallExpr:
+						if strings.HasPrefix(f.Render(x.Fun), "parser.Parse") {
+							parses = append(parses, fd.Name.Name+": "+f.Render(x))
+						}
+					case *ast.AssignStmt:
+						if len(x.Lhs) == 1 && strings.HasSuffix(f.Render(x.Lhs[0]), "Params.AST") {
+							astAssign = append(astAssign, fd.Name.Name+": "+f.Render(x))
+						}
+					}
+					return true
+				})
+			}
+			e.Strs("queryParses", parses, "every parser call of async_searcher.go: function: call")
+			e.Strs("astAssignments", astAssign, "every assignment to ...Params.AST: function: statement")
+		}
 		// key codec
 		if q, err := r.Load("seq/qpr.go"); err != nil {
 			e.Missing("qpr.go", err)
